@@ -141,6 +141,7 @@ const (
 	ELockWait      ErrClass = "lock-wait-timeout"
 	ELockNoWait    ErrClass = "lock-nowait-failed"
 	EKilled        ErrClass = "client-killed"
+	ECancelled     ErrClass = "caller-cancelled" // the caller's own context ended: a definite (not "undetermined") answer
 	EAssertion     ErrClass = "assertion"
 	EOther         ErrClass = "other"
 )
@@ -219,6 +220,9 @@ type Runner struct {
 	NoLockBeforeWrite bool
 	// BeforeCommit, if set, runs right before Commit/Rollback is called
 	BeforeCommit func(rec *TxnRec, txn *transaction.KVTxn)
+	// CommitCtx, if set, is the context Commit is called with (a driver that cancels it owns the cancel function); a
+	// Commit that then answers "context canceled" on a live client is classified ECancelled, a definite answer
+	CommitCtx context.Context
 }
 
 func copyBuf(b map[string]BufEntry) map[string]BufEntry {
@@ -516,7 +520,11 @@ func (r *Runner) Run(id int, spec Spec) *TxnRec {
 	if spec.Commit && !mustRollback {
 		rec.EndKind = "commit"
 		rec.EndCallSeq = log.Next()
-		err := txn.Commit(ctx)
+		cctx := ctx
+		if r.CommitCtx != nil {
+			cctx = r.CommitCtx
+		}
+		err := txn.Commit(cctx)
 		if r.C.Net.Killed() {
 			// the driver of a crashed client never sees the answer
 			rec.CommitErr = fmt.Sprint(err)
@@ -525,6 +533,9 @@ func (r *Runner) Run(id int, spec Spec) *TxnRec {
 		}
 		rec.EndRetSeq = log.Next()
 		rec.CommitClass = Classify(err)
+		if rec.CommitClass == EKilled && r.CommitCtx != nil {
+			rec.CommitClass = ECancelled
+		}
 		if err != nil {
 			rec.CommitErr = err.Error()
 		} else {
